@@ -37,7 +37,7 @@ m = {
         "enable": "the harness crates under /verif/harness depend on /repo/sim/elvis-core and /repo/sim/elvis by path with features = [\"verif\"]; cargo rebuilds them from /repo's working tree on every check",
         "baseline_off_cmd": "cd /repo/sim && cargo nextest run --workspace --no-fail-fast --tool-config-file pb:/w/lib/nextest.toml --profile pb --test-threads 8 --offline",
         "source_commits": hook_commits,
-        "add_only": True,
+        "add_only": False,
     },
     "engines": [{
         "name": "lean4-proof+correspondence",
@@ -46,7 +46,7 @@ m = {
         "kind_free_text": "Lean 4 theorems about hand-written executable models (lean/ElvisVerif), tied to /repo on every run by (a) extraction of constants/kernels from source into Generated/*.lean and (b) a differential correspondence run: Rust harness (harness/) drives the real code and the compiled Lean model (lean/Driver) with the same op lines and diffs the outputs; a native property oracle supplies concrete failing inputs",
     }],
     "checks": checks,
-    "notes": "All checks are `./check <ID> --tier quick|thorough`; VERIF_SEED and VERIF_TIER are honoured. Known findings: /verif/known_findings.json.",
+    "notes": "Hooks: eleven `verif hooks:` commits, all behind `#[cfg(feature = \"verif\")]`; they only add code except for two single lines that were re-shaped to carry a gated statement/field (`Ok(_) => Ok(())` in socket_api.rs became a block with a gated observer call; `Arc::new(Self { send })` in tcp_session.rs became a multi-line literal with a gated field) — hence add_only=false; with the feature off the 156 baseline tests pass. Unguarded `fix:` commits (37) repair genuine defects found by the checks; each is recorded in known_findings.json as `fixed`. All checks are `./check <ID> --tier quick|thorough`; VERIF_SEED and VERIF_TIER are honoured. Known findings: /verif/known_findings.json.",
     "not_applicable": not_applicable,
 }
 json.dump(m, open(os.path.join(ROOT, "MANIFEST.json"), "w"), indent=1)
